@@ -36,6 +36,8 @@ pub fn paths(fe: &Fe) -> Vec<Path> {
             4 => "closure-inplace-tail",
             5 => "closure-all-singles",
             6 => "closure-misaligned",
+            7 => "closure-b2b-then-inplace",
+            8 => "closure-inplace-then-b2b",
             _ => "write_keystream",
         };
         v.push(Path { closure: c, ..base(format!("whole:{name}"), Kind::InPlace) });
@@ -92,7 +94,7 @@ pub fn padded_enc(cfg: &Cfg, d: &BlockModeDesc, pad: Pad, k: Kind, key: &[u8], i
     let obj = rec::bm(cfg, d, key, iv);
     let room = plen.unwrap_or(m.len() + d.mbs);
     let mut out = dirty(room);
-    if k == Kind::InPlace {
+    if k.in_place() {
         out[..m.len()].copy_from_slice(m);
     }
     let r = obj.padded(pad, k, m, &mut out);
@@ -109,7 +111,7 @@ pub fn padded_enc(cfg: &Cfg, d: &BlockModeDesc, pad: Pad, k: Kind, key: &[u8], i
 }
 pub fn padded_dec(cfg: &Cfg, d: &BlockModeDesc, pad: Pad, k: Kind, key: &[u8], iv: &[u8], ct: &[u8]) -> Result<Vec<u8>, Fail> {
     let obj = rec::bm(cfg, d, key, iv);
-    let mut out = if k == Kind::InPlace { ct.to_vec() } else { dirty(ct.len()) };
+    let mut out = if k.in_place() { ct.to_vec() } else { dirty(ct.len()) };
     match obj.padded(pad, k, ct, &mut out) {
         Ok(n) => {
             out.truncate(n);
@@ -343,7 +345,7 @@ pub fn run(ctx: &Ctx) -> Outcome {
                                         let tail = &m[h * mbs..];
                                         let room = padded_m.len() - h * mbs;
                                         let mut out = dirty(room);
-                                        if k == Kind::InPlace {
+                                        if k.in_place() {
                                             out[..tail.len()].copy_from_slice(tail);
                                         }
                                         let n = e.padded(pad, k, tail, &mut out).map_err(|_| Fail { fp: format!("padded_enc_refused/{}-enc", mode), msg: format!("{} encrypt_padded<{}>({}) after {} block(s) through the block-level calls returned Err", de.ty, pad.s(), k.s(), h) })?;
@@ -355,7 +357,7 @@ pub fn run(ctx: &Ctx) -> Outcome {
                                         let mut back = ct[..h * mbs].to_vec();
                                         feed(&mut d, &mut back);
                                         let rest = &ct[h * mbs..];
-                                        let mut out = if k == Kind::InPlace { rest.to_vec() } else { dirty(rest.len()) };
+                                        let mut out = if k.in_place() { rest.to_vec() } else { dirty(rest.len()) };
                                         let n = d.padded(pad, k, rest, &mut out).map_err(|_| Fail { fp: format!("padded_dec_refused/{}-dec", mode), msg: format!("{} decrypt_padded<{}>({}) after {} block(s) through the block-level calls returned Err", dd.ty, pad.s(), k.s(), h) })?;
                                         out.truncate(n);
                                         back.extend(out);
